@@ -324,6 +324,9 @@ func TestVxC02RoundTrip(t *testing.T) {
 			}
 			ch := &vxCh{c: c.Choices}
 			info := vxTypeInfo(c.Type, byte(c.Proto))
+			if err := vxStructShapesCheck(c, info, k); err != nil {
+				return err
+			}
 			if err := vxCrossedTagsCheck(c, info, k); err != nil {
 				return err
 			}
@@ -452,6 +455,69 @@ func vxCrossedTagsCheck(c *vxValCase, info TypeInfo, k *vstats.Case) error {
 	return nil
 }
 
+// VxEmbInner is embedded in vxEmbOuter: its field Af is a field of vxEmbOuter for every purpose of the language.
+type VxEmbInner struct {
+	Af interface{}
+}
+
+// vxEmbOuter: the UDT field Af is a field promoted from an embedded struct.
+type vxEmbOuter struct {
+	VxEmbInner
+	Bf interface{}
+}
+
+// vxTagFirst: the UDT field Af is named by a tag; a later field that happens to be called Af is not that field.
+type vxTagFirst struct {
+	P  interface{} `cql:"Af"`
+	Af interface{}
+	Bf interface{}
+}
+
+// vxStructShapesCheck: UDT values written from structs of other shapes than the generated ones (a field promoted
+// from an embedded struct; a tag that names the UDT field although another Go field has that name).
+func vxStructShapesCheck(c *vxValCase, info TypeInfo, k *vstats.Case) error {
+	if c.Type.Kind != cqlspec.UDT || len(c.Type.Names) != 2 || c.Type.Names[0] != "Af" || c.Type.Names[1] != "Bf" || c.Value.Null || len(c.Value.Elems) != 2 {
+		return nil
+	}
+	var vals [2]interface{}
+	for i := 0; i < 2; i++ {
+		if c.Value.Elems[i].Null {
+			continue
+		}
+		gt := vxPick(c.Type.Elems[i], []cqlspec.Value{c.Value.Elems[i]}, &vxCh{c: c.Choices}, vxSrc, false)
+		rv, err := vxToGo(c.Type.Elems[i], c.Value.Elems[i], gt, &vxCh{c: c.Choices})
+		if err != nil {
+			return nil
+		}
+		vals[i] = rv.Interface()
+	}
+	want := cqlspec.Encode(c.Type, c.Value, c.Proto)
+	for _, sh := range []struct {
+		name string
+		v    interface{}
+	}{
+		{"struct{VxEmbInner{Af}; Bf}", vxEmbOuter{VxEmbInner: VxEmbInner{Af: vals[0]}, Bf: vals[1]}},
+		{"*struct{VxEmbInner{Af}; Bf}", &vxEmbOuter{VxEmbInner: VxEmbInner{Af: vals[0]}, Bf: vals[1]}},
+		{"struct{P `cql:\"Af\"`; Af; Bf}", vxTagFirst{P: vals[0], Af: nil, Bf: vals[1]}},
+	} {
+		got, merr, pan := vxSafeMarshal(info, sh.v)
+		if pan != nil {
+			return fmt.Errorf("Marshal(%v, %s) panicked: %v", c.Type, sh.name, pan)
+		}
+		if merr != nil {
+			continue
+		}
+		k.Class("udt from " + sh.name)
+		if !bytes.Equal(got, want) {
+			dv, derr := cqlspec.Decode(c.Type, got, c.Proto)
+			if derr != nil || !cqlspec.Equal(c.Type, vxCanon(c.Type, dv, c.Proto), vxCanon(c.Type, c.Value, c.Proto)) {
+				return fmt.Errorf("Marshal(%v, %s holding for the UDT field Af %+v and for Bf %+v) = %x, the specification's encoding is %x", c.Type, sh.name, vals[0], vals[1], got, want)
+			}
+		}
+	}
+	return nil
+}
+
 func vxDecodeInto(info TypeInfo, c *vxValCase, b []byte, holder reflect.Type, k *vstats.Case, ch *vxCh, tag string) error {
 	p := reflect.New(holder)
 	if c.Dirty != nil && vxValid(c.Type, *c.Dirty) && cqlspec.Encodable(c.Type, *c.Dirty, c.Proto) {
@@ -501,6 +567,9 @@ func TestVxC12Encode(t *testing.T) {
 			}
 			ch := &vxCh{c: c.Choices}
 			info := vxTypeInfo(c.Type, byte(c.Proto))
+			if err := vxStructShapesCheck(c, info, k); err != nil {
+				return err
+			}
 			if err := vxCrossedTagsCheck(c, info, k); err != nil {
 				return err
 			}
